@@ -119,6 +119,8 @@ let handle () : Stdlib.String.t =
     let s = text_of_hex (next ()) in
     let types = (match lex_text s with None -> "-" | Some ts -> (match antlr_types ts with None -> "?" | Some tys -> String.concat "," (List.map sz tys))) in
     (match antlr_recognise s with AntlrAccept -> "accept " | AntlrSyntaxError -> "syntax " | AntlrLexError -> "lex ") ^ types
+  | "antlrlex" ->   (* the automaton dumped from the lexer's serialized ATN, simulated with maximal munch *)
+    (match antlr_lex (text_of_hex (next ())) with None -> "-" | Some tys -> "ok " ^ String.concat "," (List.map sz tys))
   | "parse" ->
     (match ref_parse (text_of_hex (next ())) with Inl e -> "err " ^ perr_name e | Inr g -> "ok " ^ show_mol g)
   | "readmol" ->
